@@ -16,6 +16,7 @@ import (
 func init() {
 	vpRegister("c13_steps", vpH_c13_steps)
 	vpRegister("c13_long", vpH_c13_long)
+	vpRegister("c13_exotic_keys", vpH_c13_exotic_keys)
 }
 
 // vpWantStep describes what one input entry must become.
@@ -305,4 +306,34 @@ func vpH_c13_long() {
 	vpAssert(vpCountLeaves(err) == want, "the warning reports each fallback exactly once, at every list length")
 	b, merr := json.Marshal(p)
 	vpAssert(merr == nil && vpJKind(b) == 5, "a long usable pipeline marshals to JSON")
+}
+
+// Mapping keys are arbitrary strings (quotes, backslashes, control characters,
+// DEL): wherever the parser keeps a mapping verbatim - unknown steps, the env
+// block, unknown fields of a step and of the pipeline - a usable result still
+// marshals to JSON and to YAML.
+func vpH_c13_exotic_keys() {
+	class := "\\x01-\\x7f"
+	k := vpStr(1, class) + vpStrUpTo(1, class)
+	vpAssume(k != "steps" && k != "env")
+	var doc any
+	switch vpInt(0, 3) {
+	case 0: // an unknown step keeps its mapping
+		doc = vpMapOf("steps", []any{vpMapOf(k, "x")})
+	case 1: // the env block
+		doc = vpMapOf("env", vpMapOf(k, "v"), "steps", []any{vpMapOf("command", "c")})
+	case 2: // an unknown field of a command step, nested
+		doc = vpMapOf("steps", []any{vpMapOf("command", "c", "agents", vpMapOf(k, vpMapOf(k, 1)))})
+	default: // a top-level extra
+		doc = vpMapOf("steps", []any{vpMapOf("command", "c")}, "notify", []any{vpMapOf(k, "n")})
+	}
+	p := new(Pipeline)
+	err := ordered.Unmarshal(doc, p)
+	if err != nil && !warning.Is(err) {
+		return
+	}
+	b, merr := json.Marshal(p)
+	vpAssert(merr == nil && vpJKind(b) == 5, "a usable pipeline whose kept mappings have arbitrary string keys marshals to JSON")
+	_, yerr := yaml.Marshal(p)
+	vpAssert(yerr == nil, "a usable pipeline whose kept mappings have arbitrary string keys marshals to YAML")
 }
